@@ -369,7 +369,7 @@ func cmapCase(o *suiteOut, line string) {
 	}
 	if fault != "none" && fault != "big" && err != nil {
 		// a read that failed half-way leaves nothing behind: the next file, which lacks begincmap, is rejected as ever
-		next := randCMap(newRng(seed + 1)).render(newRng(seed+1), "nobegincmap")
+		next := randCMap(newRng(seed+1)).render(newRng(seed+1), "nobegincmap")
 		if d2, err2, _ := readCMapSafe(next); err2 == nil {
 			o.fail("C07", "a file without begincmap is rejected, whatever was read (and rejected) before it", line+" then nobegincmap", "error", fmt.Sprint(len(d2), " entries accepted"))
 		}
